@@ -82,7 +82,7 @@ func (s *submission) snap(bn *fakebn.BN) snapshot {
 	return sn
 }
 
-var vcAlterations = []string{"leaf", "leaf", "leaf", "leaf", "leaf", "other_share", "other_validator_same_share", "wrong_domain", "other_fork", "zero_signature", "proposal_payload_resigned"}
+var vcAlterations = []string{"leaf", "leaf", "leaf", "leaf", "leaf", "other_share", "other_validator_same_share", "wrong_domain", "other_fork", "zero_domain_while_domain_unavailable", "zero_signature", "proposal_payload_resigned"}
 
 func TestC10ValidatorAPI(t *testing.T) {
 	vstat.Rule("C10", ruleVC)
@@ -126,6 +126,7 @@ func TestC10ValidatorAPI(t *testing.T) {
 			rt.Fatalf("HARNESS-ERROR: no signing root for valid %s", s.endpoint)
 		}
 		alt := vcAlterations[rapid.IntRange(0, len(vcAlterations)-1).Draw(rt, "alteration")]
+		forceDomainFault := false
 		detail := ""
 		mustReject := false
 		switch alt {
@@ -143,12 +144,16 @@ func TestC10ValidatorAPI(t *testing.T) {
 		case "other_validator_same_share":
 			s.signWith(cl.bn, cl.vals[(vi+1)%len(cl.vals)].shares[me])
 			mustReject = true
-		case "wrong_domain", "other_fork":
+		case "wrong_domain", "other_fork", "zero_domain_while_domain_unavailable":
 			cv, _ := s.coreView()
 			spec, err := specsign.Of(cl.bn, cv)
 			must(err)
 			var domain eth2p0.Domain
-			if alt == "wrong_domain" {
+			if alt == "zero_domain_while_domain_unavailable" {
+				// the beacon node cannot supply signing domains for the next requests, and the signature is made
+				// over the object root with the all-zero domain (what a verifier that loses the error computes)
+				forceDomainFault = true
+			} else if alt == "wrong_domain" {
 				other := "DOMAIN_BEACON_ATTESTER"
 				if spec.Domain == other {
 					other = "DOMAIN_RANDAO"
@@ -212,6 +217,10 @@ func TestC10ValidatorAPI(t *testing.T) {
 		}
 		var err error
 		faulted, disarm := beaconFault(rt, cl.bn)
+		if forceDomainFault {
+			cl.bn.Fail("domain", 4)
+			faulted = true
+		}
 		func() {
 			defer func() {
 				if r := recover(); r != nil {
@@ -267,7 +276,7 @@ func peerKey(i int) *k1.PrivateKey {
 	return k1.PrivKeyFromBytes(h[:])
 }
 
-var peerAlterations = []string{"bare_signature_duty", "other_duty_type", "leaf", "leaf", "leaf", "signed_by_other_share", "other_validator_pubkey", "unknown_pubkey", "share_idx_0", "share_idx_n+1", "share_idx_negative", "claims_receivers_share_idx", "claims_third_share_idx", "zero_signature", "gated_slot", "invalid_duty_type", "wrong_domain", "other_fork"}
+var peerAlterations = []string{"bare_signature_duty", "other_duty_type", "leaf", "leaf", "leaf", "signed_by_other_share", "other_validator_pubkey", "unknown_pubkey", "share_idx_0", "share_idx_n+1", "share_idx_negative", "claims_receivers_share_idx", "claims_third_share_idx", "zero_signature", "gated_slot", "invalid_duty_type", "wrong_domain", "other_fork", "zero_domain_while_domain_unavailable"}
 
 func TestC10PeerPath(t *testing.T) {
 	vstat.Rule("C10", rulePeer)
@@ -384,6 +393,7 @@ func TestC10PeerPath(t *testing.T) {
 		}
 
 		alt := peerAlterations[rapid.IntRange(0, len(peerAlterations)-1).Draw(rt, "alteration")]
+		forceDomainFault := false
 		detail := ""
 		data := signedBy(gen(), v.shares[share])
 		set := core.ParSignedDataSet{}
@@ -472,11 +482,13 @@ func TestC10PeerPath(t *testing.T) {
 			}
 			duty.Type = ot
 			detail = ot.String()
-		case "wrong_domain", "other_fork":
+		case "wrong_domain", "other_fork", "zero_domain_while_domain_unavailable":
 			spec, err := specsign.Of(cl.bn, data)
 			must(err)
 			var domain eth2p0.Domain
-			if alt == "wrong_domain" {
+			if alt == "zero_domain_while_domain_unavailable" {
+				forceDomainFault = true
+			} else if alt == "wrong_domain" {
 				other := "DOMAIN_BEACON_ATTESTER"
 				if spec.Domain == other {
 					other = "DOMAIN_RANDAO"
@@ -504,6 +516,10 @@ func TestC10PeerPath(t *testing.T) {
 		}
 		set[pub] = core.ParSignedData{SignedData: data, ShareIdx: idx}
 		faulted, disarm := beaconFault(rt, cl.bn)
+		if forceDomainFault {
+			cl.bn.Fail("domain", 4)
+			faulted = true
+		}
 		calls, handled := run(duty, set)
 		disarm()
 		if faulted {
@@ -568,8 +584,70 @@ func TestC10Batches(t *testing.T) {
 			g.install(w)
 			items = append(items, g)
 		}
+		// One request may span a fork activation: a further entry (of another validator) lies in the last epoch
+		// before a fork while the first entry lies in the fork's first epoch (or the other way round), and is
+		// signed, consistently, for the fork of the FIRST entry's epoch: invalid for its own epoch. (A handler that
+		// resolves the signing epoch once per request admits it.)
+		crossFork := false
+		if len(cl.vals) > 1 && rapid.IntRange(0, 3).Draw(rt, "crossForkEntry") == 0 {
+			var later []fakebn.Fork
+			for _, fk := range cl.bn.Forks[1:] {
+				if fk.Epoch > 0 {
+					later = append(later, fk)
+				}
+			}
+			fk := later[rapid.IntRange(0, len(later)-1).Draw(rt, "crossFork")]
+			firstAfter := rapid.Bool().Draw(rt, "firstEntryAfterFork")
+			place := func(sub *submission, after bool) bool {
+				set := 0
+				for _, l := range valgen.Uint64Leaves(sub.api) {
+					switch {
+					case strings.HasSuffix(l.Path, ".Slot"):
+						x := uint64(fk.Epoch) * cl.bn.SPE
+						if !after {
+							x--
+						}
+						l.Set(x)
+						set++
+					case strings.HasSuffix(l.Path, ".Epoch"):
+						x := uint64(fk.Epoch)
+						if !after {
+							x--
+						}
+						l.Set(x)
+						set++
+					}
+				}
+				return set > 0
+			}
+			ov := cl.vals[(vi+1)%len(cl.vals)]
+			x := builders[bi](t, cl, ov, me, seed)
+			if place(good, firstAfter) && place(x, !firstAfter) {
+				good.signWith(cl.bn, v.shares[me])
+				good.install(w)
+				x.install(w)
+				if cv, err := x.coreView(); err == nil {
+					if spec, err := specsign.Of(cl.bn, cv); err == nil && spec.Domain != "DOMAIN_APPLICATION_BUILDER" && spec.Domain != "DOMAIN_VOLUNTARY_EXIT" {
+						gcv, _ := good.coreView()
+						gspec, gerr := specsign.Of(cl.bn, gcv)
+						if gerr == nil && cl.bn.ForkAt(gspec.Epoch).Version != cl.bn.ForkAt(spec.Epoch).Version {
+							domain := fakebn.ComputeDomain(fakebn.DomainTypes[spec.Domain], cl.bn.ForkAt(gspec.Epoch).Version, cl.bn.GenesisValidatorsRoot)
+							sr := mustRoot(&eth2p0.SigningData{ObjectRoot: spec.Root, Domain: domain})
+							sg, err := tbls.Sign(ov.shares[me], sr[:])
+							must(err)
+							*x.sig() = eth2p0.BLSSignature(sg)
+							items = append(items, x)
+							crossFork = true
+						}
+					}
+				}
+			}
+		}
 		// the invalid entries (one, sometimes two or three: what a handler does after the first refusal matters)
 		nBad := rapid.SampledFrom([]int{1, 1, 2, 3}).Draw(rt, "invalidEntries")
+		if crossFork {
+			nBad = rapid.IntRange(0, 1).Draw(rt, "invalidEntriesBesidesCrossFork")
+		}
 		sameKey := false
 		how, pos := "", 0
 		for b := 0; b < nBad; b++ {
@@ -629,7 +707,7 @@ func TestC10Batches(t *testing.T) {
 				}
 			}
 		}
-		vstat.Case(fmt.Sprintf("batch/%s/%s/%d/%d/%v/%d", good.endpoint, how, pos, len(items), sameKey, seed), sameKey, "batch:"+good.endpoint, "batch_how:"+how, fmt.Sprintf("batch_invalid_entries:%d", nBad), cls("batch_rejected_whole", err != nil), cls("batch_delivered_some", len(*rec) > 0))
+		vstat.Case(fmt.Sprintf("batch/%s/%s/%d/%d/%v/%d/%v", good.endpoint, how, pos, len(items), sameKey, seed, crossFork), sameKey || crossFork, "batch:"+good.endpoint, "batch_how:"+how, fmt.Sprintf("batch_invalid_entries:%d", nBad), cls("batch_rejected_whole", err != nil), cls("batch_delivered_some", len(*rec) > 0), cls("batch_with_entry_signed_for_the_first_entrys_fork", crossFork))
 	})
 }
 
